@@ -175,6 +175,20 @@ theorem C06_apply_items (items : List Dangling) (r : Record) :
     | event e => simp [applyDangling, propsOf, eventsOf, Record.core]
     | props p => simp [applyDangling, propsOf, eventsOf, Record.core]
 
+/-- D20, the open finding (release-build face): `LocalSpan::with_properties` looks at the current span line only.  When a
+    newer scope has been opened since the local span was entered, the current line's epoch is not the handle's and the
+    properties are dropped — whatever the line the span lives on.  (With debug assertions the call panics instead; the
+    unit test `unmatched_span_line_add_properties` of the baseline suite pins that, so the code stays as it is.) -/
+theorem C06_D20_dropped_under_newer_scope (st : Stack) (newer : SpanLine) (below : List SpanLine) (h : LocalHandle) (kvs : Props)
+    (hl : st.lines = newer :: below) (hne : newer.epoch ≠ h.epoch) :
+    (st.withProps h kvs).lines = st.lines := by
+  unfold Stack.withProps
+  rw [hl]
+  dsimp only
+  have : newer.withProps h kvs = newer := by
+    simp [SpanLine.withProps, hne]
+  simp [this]
+
 /-- D10, the open finding: two copies of one span in one call — the first takes everything -/
 theorem C06_D10_witness :
     let r : Record := ⟨1, 7, 0, 0, 0, "s", [], []⟩
